@@ -72,7 +72,7 @@ def tree_key(extra_paths=()):
         files = [p] if os.path.isfile(p) else sorted(
             f for f in glob.glob(os.path.join(p, "**"), recursive=True) if os.path.isfile(f))
         for f in files:
-            if "/.cache/" in f or f.endswith(".test"):
+            if "/.cache/" in f or f.endswith(".test") or "__pycache__" in f or f.endswith(".pyc"):
                 continue
             h.update(f.encode())
             with open(f, "rb") as fh:
@@ -184,11 +184,11 @@ def scratch_spec(family_dir):
     return d
 
 
-def tlc_mc(spec_dir, module, cfg_path, workers=8, timeout=1200, coverage=False, reuse=True, deps=None):
+def tlc_mc(spec_dir, module, cfg_path, workers=8, timeout=1200, coverage=False, reuse=False, deps=None):
     """Exhaustive model check.  Returns dict(generated, distinct, depth, ok, out, reused).
 
     The result is a pure function of the specification and the configuration (it does not depend on /repo), so
-    it is memoised under .cache/mc keyed by the hash of every .tla file of the spec directory and of the cfg;
+    it may be memoised (reuse=True; never for runs that exist for a side effect such as JsonSerialize) under .cache/mc keyed by the hash of every .tla file of the spec directory and of the cfg;
     `reused` says whether this invocation actually ran TLC."""
     h = hashlib.sha256()
     # deps: the modules the checked module (transitively) EXTENDS/INSTANCEs; default: every module of the directory
